@@ -89,6 +89,12 @@ type CallResult struct {
 	Call string `json:"call"`
 	Intr *Intr  `json:"intr,omitempty"`
 	Err  string `json:"err,omitempty"`
+	// Evals counts the RuleEval hook events per phase that happened during this call.
+	Evals [6]int `json:"evals"`
+	// Begins counts the PhaseBegin hook events per phase during this call.
+	Begins [6]int `json:"begins"`
+	// Interrupted is tx.IsInterrupted() right after the call.
+	Interrupted bool `json:"interrupted,omitempty"`
 }
 
 // ExecResult is the observed outcome plus per-call return values.
@@ -118,6 +124,11 @@ func Exec(w coraza.WAF, req *Req) *ExecResult {
 // ExecSeq runs the request with an explicit sequence of phase calls (nil = standard 1..5).
 // Calls: "h" ProcessRequestHeaders, "b" ProcessRequestBody, "H" ProcessResponseHeaders, "B" ProcessResponseBody, "L" ProcessLogging.
 func ExecSeq(w coraza.WAF, req *Req, seq []string) *ExecResult {
+	return ExecSeqHook(w, req, seq, nil)
+}
+
+// ExecSeqHook is ExecSeq with a callback after every call (the transaction is still open).
+func ExecSeqHook(w coraza.WAF, req *Req, seq []string, after func(i int, tx types.Transaction, cr *CallResult)) *ExecResult {
 	id := nextTxID()
 	rec := obs.Attach(id)
 	defer obs.Detach(id)
@@ -155,8 +166,38 @@ func ExecSeq(w coraza.WAF, req *Req, seq []string) *ExecResult {
 		}
 		respSet := false
 		for _, c := range seq {
+			if c == "" {
+				continue
+			}
 			cr := CallResult{Call: c}
+			var evBefore, bgBefore [6]int
+			evMu.Lock()
+			for ph := 0; ph < 6; ph++ {
+				evBefore[ph] = len(ev.evaluated[ph])
+			}
+			bgBefore = ev.phaseBegin
+			evMu.Unlock()
 			switch c {
+			case "w", "W":
+				body := []byte("a=1")
+				if c == "W" {
+					body = []byte(strings.Repeat("x=y&", 64))
+				}
+				it, _, err := tx.WriteRequestBody(body)
+				cr.Intr = toIntr(it)
+				if err != nil {
+					cr.Err = "error"
+				}
+			case "r", "R":
+				body := "ok"
+				if c == "R" {
+					body = strings.Repeat("z", 256)
+				}
+				it, _, err := tx.WriteResponseBody([]byte(body))
+				cr.Intr = toIntr(it)
+				if err != nil {
+					cr.Err = "error"
+				}
 			case "h":
 				cr.Intr = toIntr(tx.ProcessRequestHeaders())
 			case "b":
@@ -181,6 +222,16 @@ func ExecSeq(w coraza.WAF, req *Req, seq []string) *ExecResult {
 				}
 			case "L":
 				tx.ProcessLogging()
+			}
+			evMu.Lock()
+			for ph := 0; ph < 6; ph++ {
+				cr.Evals[ph] = len(ev.evaluated[ph]) - evBefore[ph]
+				cr.Begins[ph] = ev.phaseBegin[ph] - bgBefore[ph]
+			}
+			evMu.Unlock()
+			cr.Interrupted = tx.IsInterrupted()
+			if after != nil {
+				after(len(out.Calls), tx, &cr)
 			}
 			out.Calls = append(out.Calls, cr)
 		}
